@@ -77,7 +77,7 @@ pub fn run(prop: &'static str, tier: Tier) -> i32 {
     if prop == "C12" {
         let (s, t) = super::c12::value_api_sweep(&ctx, tier);
         extra_states += s;
-        extra_transitions += t;
+        extra_transitions += t + super::c12::spec_api_sweep(&ctx);
     }
     ctx.eval(stats.transitions + stats.stale_calls + extra_transitions);
     for k in stats.outcomes.keys() {
